@@ -207,25 +207,25 @@ Definition with_failing (sv : server) (l : list string) : server :=
      sv_owner := sv_owner sv; sv_unknown := sv_unknown sv; sv_failing := l |}.
 
 (* ---------- C03: the specification of filtering, from [allows] alone ---------- *)
-Fixpoint spec_filter (a : af) (path : list string) (s : sel) {struct s} : list sel * nat :=
-  let go := fun (path : list string) => fix go (l : list sel) : list sel * nat :=
-    match l with [] => ([], 0) | x :: r => let '(k1, n1) := spec_filter a path x in let '(k2, n2) := go r in (k1 ++ k2, n1 + n2) end in
+Fixpoint spec_filter (a : af) (path : list string) (s : sel) {struct s} : list sel * list (list string) :=
+  let go := fun (path : list string) => fix go (l : list sel) : list sel * list (list string) :=
+    match l with [] => ([], []) | x :: r => let '(k1, n1) := spec_filter a path x in let '(k2, n2) := go r in (k1 ++ k2, n1 ++ n2) end in
   match s with
   | SField al n ar ds t oss =>
       if String.eqb n "__typename" || String.eqb n "__schema" || String.eqb n "__type" || allows a (path ++ [n]) then
         match oss with
-        | None => ([s], 0)
+        | None => ([s], [])
         | Some ss => let '(k, e) := go (path ++ [n]) ss in ([SField al n ar ds t (Some k)], e)
         end
-      else ([], 1)
+      else ([], [path ++ [n]])          (* the removed field, named by its path *)
   | SInline tc ds e ss => let '(k, n) := go path ss in ([SInline tc ds e k], n)
   | SSpread f ds e tc ss => let '(k, n) := go path ss in ([SSpread f ds e tc k], n)
   end.
-Definition spec_filter_op (p : option operm) (root : string) (ss : list sel) : list sel * nat :=
+Definition spec_filter_op (p : option operm) (root : string) (ss : list sel) : list sel * list string :=
   match p with
-  | None => (ss, 0)
-  | Some pm => let a := if String.eqb root "Mutation" then p_mutation pm else p_query pm in
-               fold_left (fun acc x => let '(k, n) := spec_filter a [] x in (fst acc ++ k, snd acc + n)) ss ([], 0)
+  | None => (ss, [])
+  | Some pm => let '(a, rn) := if String.eqb root "Mutation" then (p_mutation pm, "mutation") else (p_query pm, "query") in
+               fold_left (fun acc x => let '(k, n) := spec_filter a [] x in (fst acc ++ k, snd acc ++ map (fun p => sconcat "." (rn :: p)) n)) ss ([], [])
   end.
 (* (parent type, field) pairs of a selection *)
 Fixpoint type_fields (parent : string) (s : sel) {struct s} : list string :=
@@ -404,8 +404,9 @@ Definition check_e2e_case (c : e2e_case) : list (string * bool) :=
                                       (flat_map (type_fields (or_parent r)) (or_sel r))) (obs_requests c)
         | None => true end);
     ("prop.c03.errors_exact", match ec_perm c with
-        | Some _ => Nat.eqb (List.length (filter (fun e => ekind_eqb (oe_kind e) EPerm) (obs_errors c)))
-                            (snd (spec_filter_op (ec_perm c) (root_of c) client_ss0))
+        | Some _ => multiset_eqb String.eqb
+                      (flat_map (fun e => if ekind_eqb (oe_kind e) EPerm then [match oe_path e with [PName m] => m | _ => "" end] else []) (obs_errors c))
+                      (snd (spec_filter_op (ec_perm c) (root_of c) client_ss0))
         | None => true end);
     ("prop.c03.authorized_part", match ec_perm c with
         | Some _ => if ec_conforming c && nofault then
